@@ -190,10 +190,10 @@ func c18Next2(c *Ctx) {
 }
 
 type c18Case struct {
-	Kind   string `json:"kind"`
-	NC     int64  `json:"num_counters"`
-	Stream uint64 `json:"stream"`
-	Ops    int    `json:"ops"`
+	Kind   string   `json:"kind"`
+	NC     int64    `json:"num_counters"`
+	Stream uint64   `json:"stream"`
+	Ops    int      `json:"ops"`
 	Tail   []string `json:"trace_tail,omitempty"`
 }
 
